@@ -80,7 +80,12 @@ func init() {
 		Setup: func(e *ens.Engine) {
 			qbftSetup(e)
 			e.Expand = nil
-			e.MaxDepth = 0
+			// callee pairs are compared on their own; only helpers that are compared inlined
+			// (c06Inl) and literals invoked on the spot lend their facts to their callers
+			e.MaxDepth = 3
+			e.ExpandFn = func(h *ssa.Function) bool {
+				return c06Inl[h] || (h.Parent() != nil && len(h.FreeVars) == 0 && len(h.Params) > 0)
+			}
 		},
 	})
 }
@@ -356,67 +361,137 @@ func (b *c06Builder) factList(fs ens.FactSet, bind []*ens.Node, drop map[string]
 	return strings.Join(out, "\n")
 }
 
+// c06Inl: functions that are compared *inlined into their callers* instead of
+// on their own: private helpers of a compared package that have no sibling on
+// the other side, and function literals that are called on the spot. Extracting
+// lines into a helper, inlining a tiny helper, or naming a closure must not
+// change the view.
+var c06Inl = map[*ssa.Function]bool{}
+
+func c06Inlineable(h *ssa.Function, root *ssa.Function) bool {
+	if h == nil || len(h.Blocks) == 0 || h.Pkg == nil || h.Pkg != topFunc(root).Pkg {
+		return false
+	}
+	if h.Parent() != nil {
+		return len(h.Params) > 0 // a literal invoked with arguments (checked at the call site)
+	}
+	return c06Inl[h]
+}
+
+type c06Unit struct {
+	g    *ssa.Function
+	bind []*ens.Node // rebinding of g's parameter nodes into root terms (nil: none)
+	ctx  ens.FactSet // facts holding whenever g runs, already in root terms
+	tag  string
+	root bool
+}
+
 func (b *c06Builder) build(f *ssa.Function) *c06View {
 	c := b.c
 	v := &c06View{exits: map[string][]string{}, sites: map[string][]string{}, calls: map[string]int{}}
 	bind, _ := c06Bind(f)
+	// calls whose results only feed logging are not part of the protocol (collected over the
+	// function and its closures: a closure inherits the facts of the place it is created at)
+	drop := map[string]bool{}
+	inlLabels := map[string]bool{}
+	var units []c06Unit
+	direct := map[*ssa.Function]bool{} // literals consumed by an on-the-spot call
 	for _, g := range funcsWithAnon(f) {
-		a := c.E.Analyze(g)
-		gb := bind
-		if g != f && len(g.Params) > 0 {
-			gb = nil // a closure with parameters of its own: indices would collide with the captured ones
-		}
-		sub := func(n *ens.Node) string {
-			if gb != nil {
-				n = n.Subst(gb)
-			}
-			return b.norm(c06Strip(n).String())
-		}
-		rawOf := func(n *ens.Node) string {
-			if gb != nil {
-				n = n.Subst(gb)
-			}
-			return c06Strip(n).String()
-		}
-		tag := ""
-		if g != f {
-			tag = "closure:"
-		}
-		// calls whose results only feed logging are not part of the protocol (collected over the
-		// function and its closures: a closure inherits the facts of the place it is created at)
-		drop := map[string]bool{}
-		for _, h := range funcsWithAnon(f) {
-			ha := c.E.Analyze(h)
-			for _, bl := range h.Blocks {
-				for _, in := range bl.Instrs {
-					if cv, ok := in.(*ssa.Call); ok && feedsOnlyNoise(cv, 0) {
-						n := ha.D.D(cv)
-						if h == f || len(h.Params) == 0 {
-							n = n.Subst(bind)
-						}
-						drop[c06Strip(n).String()] = true
+		for _, bl := range g.Blocks {
+			for _, in := range bl.Instrs {
+				if cv, ok := in.(*ssa.Call); ok {
+					if h := cv.Call.StaticCallee(); h != nil && h.Parent() != nil && len(h.Params) > 0 {
+						direct[h] = true
 					}
 				}
 			}
 		}
-		// exits
-		spec := "any"
-		res := g.Signature.Results()
-		if res.Len() > 0 && res.At(res.Len()-1).Type().String() == "error" {
-			spec = "err=nil"
+	}
+	for _, g := range funcsWithAnon(f) {
+		switch {
+		case g == f:
+			units = append(units, c06Unit{g: g, bind: bind, root: true})
+		case direct[g]:
+			// reached from its call site below
+		case len(g.Params) == 0:
+			units = append(units, c06Unit{g: g, bind: bind, tag: "closure:"})
+		default:
+			units = append(units, c06Unit{g: g, tag: "closure:"})
 		}
-		exits, err := a.Exits(spec)
-		if err != nil {
-			v.unbound = append(v.unbound, err.Error())
-		}
-		for _, ex := range exits {
-			var rs []string
-			for _, r := range ex.Ret.Results {
-				rs = append(rs, sub(a.D.D(r)))
+	}
+	seen := map[*ssa.Function]int{}
+	type pendExit struct {
+		key string
+		fs  ens.FactSet
+	}
+	var pendExits []pendExit // rendered last: which calls are inlined is known only after the walk
+	type pendSite struct {
+		key string
+		fs  ens.FactSet
+	}
+	var pendSites []pendSite
+	for qi := 0; qi < len(units); qi++ {
+		u := units[qi]
+		g := u.g
+		a := c.E.Analyze(g)
+		rb := func(n *ens.Node) *ens.Node {
+			if u.bind != nil {
+				n = n.Subst(u.bind)
 			}
-			key := tag + "return(" + strings.Join(rs, " ; ") + ")"
-			v.exits[key] = append(v.exits[key], b.factList(ex.Facts, gb, drop))
-			v.nExits++
+			return c06Strip(n)
+		}
+		sub := func(n *ens.Node) string { return b.norm(rb(n).String()) }
+		facts := func(in ssa.Instruction) ens.FactSet {
+			fs := a.FactsAt(in)
+			if fs == nil {
+				return nil
+			}
+			out := ens.FactSet{}
+			for _, f := range fs {
+				if u.bind != nil {
+					f = f.Subst(u.bind, "")
+				}
+				out.Add(f)
+			}
+			for _, f := range u.ctx {
+				out.Add(f)
+			}
+			return out
+		}
+		for _, bl := range g.Blocks {
+			for _, in := range bl.Instrs {
+				if cv, ok := in.(*ssa.Call); ok && feedsOnlyNoise(cv, 0) {
+					drop[rb(a.D.D(cv)).String()] = true
+				}
+			}
+		}
+		// exits (of the compared function and of the closures that stay closures)
+		if u.root || u.tag != "" && !c06Inl[g] && g.Parent() != nil && !direct[g] {
+			spec := "any"
+			res := g.Signature.Results()
+			if res.Len() > 0 && res.At(res.Len()-1).Type().String() == "error" {
+				spec = "err=nil"
+			}
+			exits, err := a.Exits(spec)
+			if err != nil {
+				v.unbound = append(v.unbound, err.Error())
+			}
+			for _, ex := range exits {
+				var rs []string
+				for _, r := range ex.Ret.Results {
+					rs = append(rs, sub(a.D.D(r)))
+				}
+				key := u.tag + "return(" + strings.Join(rs, " ; ") + ")"
+				fs := ens.FactSet{}
+				for _, f := range ex.Facts {
+					if u.bind != nil {
+						f = f.Subst(u.bind, "")
+					}
+					fs.Add(f)
+				}
+				pendExits = append(pendExits, pendExit{key, fs})
+				v.nExits++
+			}
 		}
 		// sites
 		for _, bl := range g.Blocks {
@@ -430,14 +505,29 @@ func (b *c06Builder) build(f *ssa.Function) *c06View {
 						if feedsOnlyNoise(cv, 0) {
 							continue
 						}
+						if h := cv.Call.StaticCallee(); c06Inlineable(h, f) && seen[h] < 3 {
+							// compare the helper's body in place of the call
+							seen[h]++
+							var args []*ens.Node
+							for _, x := range cv.Call.Args {
+								args = append(args, rb(a.D.D(x)))
+							}
+							if h.Parent() != nil {
+								// the literal's own parameters come first, captured variables are bound by the describer
+							}
+							units = append(units, c06Unit{g: h, bind: args, ctx: facts(in), tag: u.tag})
+							inlLabels[b.norm(rb(n).L)] = true
+							inlLabels[rb(n).L] = true
+							continue
+						}
 					} else {
 						n = a.D.Call(in)
 					}
-					if c06Noise(c06Norm(rawOf(n))) || c06Noise(lbl) || strings.Contains(lbl, "IConfig.VerifySignatures") || strings.HasSuffix(lbl, ".error.Error") {
+					if c06Noise(c06Norm(rb(n).String())) || c06Noise(lbl) || strings.Contains(lbl, "IConfig.VerifySignatures") || strings.HasSuffix(lbl, ".error.Error") {
 						continue
 					}
 					ks := sub(n)
-					pre := tag
+					pre := u.tag
 					if _, isDefer := in.(*ssa.Defer); isDefer {
 						pre += "defer "
 					}
@@ -449,7 +539,7 @@ func (b *c06Builder) build(f *ssa.Function) *c06View {
 					}
 					if c06Effect(lbl) {
 						key := b.norm(pre + "call " + ks)
-						v.sites[key] = append(v.sites[key], b.factList(a.FactsAt(in), gb, drop))
+						pendSites = append(pendSites, pendSite{key, facts(in)})
 						v.nSites++
 					}
 				case *ssa.Store:
@@ -460,14 +550,52 @@ func (b *c06Builder) build(f *ssa.Function) *c06View {
 					if strings.HasPrefix(ad, "local:") || c06Noise(ad) {
 						continue
 					}
-					ks := tag + "store " + ad + " := " + sub(a.D.D(in.Val))
-					v.sites[ks] = append(v.sites[ks], b.factList(a.FactsAt(in), gb, drop))
+					ks := u.tag + "store " + ad + " := " + sub(a.D.D(in.Val))
+					pendSites = append(pendSites, pendSite{ks, facts(in)})
 					v.nSites++
 				}
 			}
 		}
 	}
+	for _, pe := range pendExits {
+		v.exits[pe.key] = append(v.exits[pe.key], b.factListRaw(pe.fs, drop, inlLabels))
+	}
+	for _, ps := range pendSites {
+		v.sites[ps.key] = append(v.sites[ps.key], b.factListRaw(ps.fs, drop, inlLabels))
+	}
 	return v
+}
+
+// factListRaw renders a fact set that is already in root terms. Facts about
+// the results of inlined helpers are dropped (the helper's own facts stand in
+// for them).
+func (b *c06Builder) factListRaw(fs ens.FactSet, drop, inl map[string]bool) string {
+	var out []string
+	for _, f := range fs {
+		f = c06StripFact(f)
+		raw := f.Key()
+		skip := false
+		for d := range drop {
+			if strings.Contains(raw, d) {
+				skip = true
+			}
+		}
+		for l := range inl {
+			if strings.Contains(raw, l+"(") {
+				skip = true
+			}
+		}
+		if skip || strings.HasPrefix(raw, "or(") {
+			continue
+		}
+		k := b.norm(raw)
+		if c06Noise(k) || strings.Contains(k, "q.iconfig.verifysignatures(") || strings.Contains(k, "LOGGER") || k == "called()" || strings.Contains(k, "local:logger") {
+			continue
+		}
+		out = append(out, k)
+	}
+	sort.Strings(out)
+	return strings.Join(out, "\n")
 }
 
 // baseFresh: the address is a field/index of a value allocated in this
@@ -512,6 +640,39 @@ func c06Pairs(c *core.Ctx) {
 		names = append(names, k)
 	}
 	sort.Strings(names)
+	// private functions without a sibling are compared inlined into their callers
+	unexported := func(f *ssa.Function) bool { o := f.Object(); return o != nil && !o.Exported() }
+	allowListed := func(k string) bool {
+		if strings.HasPrefix(k, "init#") {
+			return true
+		}
+		_, ok := c06NodeOnly[k]
+		return ok
+	}
+	for k, f := range nodeFns {
+		if specFns[k] == nil && unexported(f) && !allowListed(k) {
+			c06Inl[f] = true
+		}
+	}
+	for k, f := range specFns {
+		if nodeFns[k] == nil && unexported(f) {
+			c06Inl[f] = true
+		}
+	}
+	calledFrom := map[*ssa.Function][]string{}
+	for k, f := range nodeFns {
+		for _, g := range funcsWithAnon(f) {
+			for _, b := range g.Blocks {
+				for _, in := range b.Instrs {
+					if ci, ok := in.(ssa.CallInstruction); ok {
+						if h := ci.Common().StaticCallee(); h != nil && c06Inl[h] && h != f {
+							calledFrom[h] = append(calledFrom[h], k)
+						}
+					}
+				}
+			}
+		}
+	}
 	pairs := 0
 	for _, k := range names {
 		nf := nodeFns[k]
@@ -524,8 +685,13 @@ func c06Pairs(c *core.Ctx) {
 			continue
 		}
 		sf := specFns[k]
+		if sf == nil && c06Inl[nf] && len(calledFrom[nf]) > 0 {
+			sort.Strings(calledFrom[nf])
+			c.OK(rule, "node-only|"+k, c.P.Pos(nf.Pos()), "private helper without a sibling: compared inlined into "+strings.Join(calledFrom[nf], ", "))
+			continue
+		}
 		if sf == nil {
-			c.Fail(rule, "node-only|"+k, c.P.Pos(nf.Pos()), "function "+k+" of the instance package has no sibling in ssv-spec/qbft and is not an allow-listed node-only function: protocol logic without a reference")
+			c.Fail(rule, "node-only|"+k, c.P.Pos(nf.Pos()), "function "+k+" of the instance package has no sibling in ssv-spec/qbft, is not an allow-listed node-only function and is not a private helper of a compared function: protocol logic without a reference")
 			continue
 		}
 		pairs++
